@@ -150,15 +150,16 @@ type Answers = Vec<Result<Option<Vec<usize>>, String>>;
 /// One long-lived helper thread per process answers all plain `search` calls
 /// (spawning a thread per vector costs more than the searches). `None` = no
 /// answer within 30 s; the helper is then lost and the shard is stopped.
+type Helper = (std::sync::mpsc::Sender<Job>, std::sync::mpsc::Receiver<Answers>, std::thread::JoinHandle<()>);
+static HELPER: std::sync::Mutex<Option<Helper>> = std::sync::Mutex::new(None);
+
 fn plain_searches(tree: &PredecessorTree, starts: &[usize], targets: &[usize]) -> Option<Answers> {
-    use std::sync::mpsc::{channel, Receiver, Sender};
-    use std::sync::{Mutex, OnceLock};
-    static WORKER: OnceLock<Mutex<(Sender<Job>, Receiver<Answers>)>> = OnceLock::new();
-    let w = WORKER.get_or_init(|| {
+    use std::sync::mpsc::channel;
+    let mut g = HELPER.lock().unwrap_or_else(|e| e.into_inner());
+    if g.is_none() {
         let (jtx, jrx) = channel::<Job>();
         let (atx, arx) = channel::<Answers>();
-        let _ = std::thread::spawn(move || {
-            crate::ctx::install_panic_hook();
+        let h = std::thread::spawn(move || {
             while let Ok((t, st, tg)) = jrx.recv() {
                 let mut out = Vec::with_capacity(st.len() * tg.len());
                 for &s in &st {
@@ -171,11 +172,25 @@ fn plain_searches(tree: &PredecessorTree, starts: &[usize], targets: &[usize]) -
                 }
             }
         });
-        Mutex::new((jtx, arx))
-    });
-    let g = w.lock().unwrap_or_else(|e| e.into_inner());
-    g.0.send((tree.clone(), starts.to_vec(), targets.to_vec())).ok()?;
-    g.1.recv_timeout(std::time::Duration::from_secs(30)).ok()
+        *g = Some((jtx, arx, h));
+    }
+    let (jtx, arx, _) = g.as_ref().expect("harness: helper just created");
+    jtx.send((tree.clone(), starts.to_vec(), targets.to_vec())).ok()?;
+    arx.recv_timeout(std::time::Duration::from_secs(30)).ok()
+}
+
+/// End the helper thread before the process exits (Miri and the leak checkers
+/// insist that no thread is left behind). A helper that is stuck inside a
+/// non-terminating search cannot be joined; the shard has then already
+/// reported that as a violation.
+pub fn shutdown_helper() {
+    let taken = HELPER.lock().unwrap_or_else(|e| e.into_inner()).take();
+    if let Some((jtx, _arx, h)) = taken {
+        drop(jtx);
+        if !crate::ctx::stop_requested() {
+            let _ = h.join();
+        }
+    }
 }
 
 fn check_vector(o: &mut CaseOut, pred: &[Option<usize>], starts: &[usize], targets: &[usize]) {
